@@ -107,10 +107,41 @@ def genTraffic (i : Nat) : G (List String) := do
   pure ([cfgOp cid raw, "reset", "pipe nf netflow " ++ cid, "pipe auto flow " ++ cid, "pipe sf sflow " ++ cid] ++
     body.flatMap fun l => if l.startsWith "pktf " then [l, "expect @fmt", "expect @agree"] else [l])
 
+/-- the JSON recogniser of the model against encoding/json on texts near the boundary of the grammar:
+    fixed edge cases and mutations (flip, delete, insert, truncate) of generated JSON forms -/
+def jsonEdgeCases : List String :=
+  ["0", "-0", "01", "1.", "1.5", "-", "1e", "1e+", "1E-7", "1.0e10", ".5", "+1", "0x10", "[]", "[1,]", "[,1]", "[1 2]", "[ 1 , 2 ]",
+   "{}", "{\"a\":1,}", "{\"a\" 1}", "{a:1}", "{\"a\":}", "{\"a\":1}x", " {\"a\":[1,{\"b\":null}]} ", "\"\\u12\"", "\"\\u12aF\"",
+   "\"\\x\"", "\"a\nb\"", "\"tab\tx\"", "true", "tru", "falsee", "null", "nul", "", " ", "[[[[[[[[[[]]]]]]]]]]", "{\"a\":{\"a\":{\"a\":{}}}}",
+   "\"\\\"", "\"", "\"\\/\"", "[\"a\",\"b\"]", "{\"k\":\"v\",\"k\":2}", "1 2", "[1]]", "-1.25e-3", "-a", "0.0", "00", "1e5.5"]
+
+def genJsonRound (i : Nat) : G (List String) := do
+  let mut out : List String := jsonEdgeCases.map fun s => "call jsonvalid " ++ hexOf (str s)
+  let pb ← genProtobuf 0 3
+  let raw ← genFormatter pb 0
+  match compile raw initialIsSlice with
+  | .error _ => pure out
+  | .ok c =>
+    for _ in [0:10] do
+      let m ← genMsg pb (← pick [10, 40, 100])
+      let js := formatJSON c.fmt m
+      out := out ++ ["call jsonvalid " ++ hexOf js]
+      for _ in [0:6] do
+        let k ← below (js.length + 1)
+        let mutated ← match (← below 4) with
+          | 0 => pure (js.take k ++ js.drop (k + 1))
+          | 1 => do pure (js.take k ++ [← pick [0x22, 0x5c, 0x2c, 0x7b, 0x7d, 0x5b, 0x5d, 0x3a, 0x30, 0x2e, 0x65, 0x2d, 0x20, 0x0a, 0x00, 0x75]] ++ js.drop k)
+          | 2 => pure (js.take k)
+          | _ => do pure (js.take k ++ [← pick [0x22, 0x5c, 0x2c, 0x7d, 0x5d, 0x31, 0x00, 0x1f, 0x7f, 0xff]] ++ js.drop (k + 1))
+        out := out ++ ["call jsonvalid " ++ hexOf mutated]
+    let _ := i
+    pure out
+
 def gen (n : Nat) : G (List String) := do
   let mut out : List String := []
   for i in [0:n] do
-    if i % 8 = 5 then out := out ++ (← C14.genElemRound i)      -- custom fields written by the mapper, all forms printed
+    if i % 8 = 1 then out := out ++ (← genJsonRound i)
+    else if i % 8 = 5 then out := out ++ (← C14.genElemRound i)      -- custom fields written by the mapper, all forms printed
     else if i % 4 = 3 then out := out ++ (← genTraffic i)
     else out := out ++ (← genRound i 6)
   pure out
